@@ -170,16 +170,16 @@ pub fn run(repo: &str, out_path: &str) -> Result<()> {
     let mut w = vec![];
     for i in &imps {
         let idx = d.exports.iter().find(|(n, _)| *n == format!("w_{}", i.name)).ok_or_else(|| anyhow!("wrapper export w_{} lost", i.name))?.1;
-        w.push(format!("  (\"{}\", {})", i.name, idx));
+        w.push(format!("  (\"{}\", {}%nat)", i.name, idx));
     }
     s.push_str(&w.join(";\n")); s.push_str("\n].\n\n");
     s.push_str("(* the public signature of each API import (from api/src/shopify_function.wat) *)\nDefinition api_sigs : list (string * (list vtype * list vtype)) := [\n");
     let mut g = vec![];
     for i in &imps { g.push(format!("  (\"{}\", ({}, {}))", i.name, tys(&i.params)?, tys(&i.results)?)); }
     s.push_str(&g.join(";\n")); s.push_str("\n].\n\n");
-    writeln!(s, "Definition n_func_imports : nat := {}.", nimp)?;
+    writeln!(s, "Definition n_func_imports : nat := {}%nat.", nimp)?;
     writeln!(s, "Definition memory_imports : list (string * string) := [{}].", d.mem_imports.iter().map(|(m, n)| format!("(\"{}\", \"{}\")", m, n)).collect::<Vec<_>>().join("; "))?;
-    writeln!(s, "Definition own_memories : nat := {}.", d.own_memories)?;
+    writeln!(s, "Definition own_memories : nat := {}%nat.", d.own_memories)?;
     let old = std::fs::read_to_string(out_path).unwrap_or_default();
     if old != s { std::fs::write(out_path, &s)?; }
     println!("{}", serde_json::json!({"functions": nimp + d.local_funcs.len(), "imports": nimp, "api_imports": imps.len()}));
